@@ -201,7 +201,7 @@ func evalC15Set(v *engine.Verdict, x *C15Case) {
 	// expected token to be unique: only when no two values share a type.
 	typeSeen := map[int]bool{}
 	uniqTypes := true
-	hasIface := false
+	hasIface, rawIface := false, false
 	for i, w := range x.Vals {
 		if typeSeen[w.Type] {
 			uniqTypes = false
@@ -214,7 +214,7 @@ func evalC15Set(v *engine.Verdict, x *C15Case) {
 			// each parameter of the consumer stays unique
 			hasIface = true
 			if w.Raw {
-				uniqTypes = false
+				rawIface = true
 			}
 			for j, o := range x.Vals {
 				if j != i && (engine.Implements(o.Type, w.Type) || engine.Implements(o.Dyn, w.Type)) {
@@ -225,6 +225,12 @@ func evalC15Set(v *engine.Verdict, x *C15Case) {
 	}
 	if uniqTypes && hasIface {
 		v.Class("args-round-trip-with-interface-typed-value")
+	}
+	if uniqTypes && rawIface {
+		// an interface-typed entry filled with a bare concrete value
+		// (v.Value = reflect.ValueOf(impl)): it still travels under the
+		// entry's declared type
+		v.Class("args-round-trip-with-concrete-value-in-interface-entry")
 	}
 	if uniqTypes && len(x.Vals) > 0 {
 		inSet, err := argmapper.NewValueSet(vsValues(x.Vals))
